@@ -18,6 +18,7 @@ import PaletteModel.HueDriver
 import PaletteModel.Cam16Driver
 import PaletteModel.C12Driver
 import PaletteModel.SimdDriver
+import PaletteModel.FiniteDriver
 
 open Proto
 
@@ -44,6 +45,7 @@ def dispatch (op : String) (cfg inp outp : List String) : Verdict :=
   | "hexparse" | "hexfmt" | "pack" | "unpack" | "lpack" | "lunpack" | "intoint" | "fromint"
   | "named" | "namedentry" | "namedcount" => C12Drv.handle op cfg inp outp
   | "simd" | "simdpack" | "vmask" => Simd.handle op cfg inp outp
+  | "convfin" => Fin7.handle cfg inp outp
   | _ => if op.startsWith "c10." then OpsDrv.handle (String.ofList (op.toList.drop 4)) cfg inp outp else .bad s!"unknown op {op}"
 
 structure DrvAcc where
